@@ -259,6 +259,67 @@ def subset_case(ctx, which):
     ctx.evaluations += n - 1
 
 
+def _hashing_extension(tape, stack, cache):
+    """a signature extension in the style of the repository's example: every present sigfield is replaced by its SHA-256"""
+    for i in range(1, 9):
+        k = 'sigfield%d' % i
+        if k in cache and len(cache[k]) != 32:
+            cache[k] = sha(bytes(cache[k]))
+
+
+def extension_case(ctx, case):
+    """with a signature extension active (registered globally or given to the run), the builders' key-spend and script-spend witnesses
+    unlock the native lock and the non-native lock alike"""
+    how, flag, which = case
+    seed = ctx.seed
+    ks = env.sym(seed, 'c5.K0')
+    pub = refed.public_key(ks)
+    s = committed_script(7)
+    S = T.Script.from_bytes(s)
+    sf = sigfields(seed, which)
+    flhex = '%02x' % flag
+    if how == 'registered':
+        F.add_signature_extension(_hashing_extension)
+        kw = {}
+    else:
+        kw = {'plugins': {'signature_extensions': [_hashing_extension]}}
+    try:
+        try:
+            native = T.make_taproot_lock(pub, S, sigflags=flhex).bytes
+            nn = T.make_nonnative_taproot_lock(pub, S, sigflags=flhex).bytes
+            if how == 'registered':
+                wk = T.make_taproot_witness_keyspend(ks, dict(sf), S, sigflags=flhex).bytes
+            else:
+                F.add_signature_extension(_hashing_extension)      # the builder signs through the registry
+                try:
+                    wk = T.make_taproot_witness_keyspend(ks, dict(sf), S, sigflags=flhex).bytes
+                finally:
+                    F.remove_signature_extension(_hashing_extension)
+            ws = T.make_taproot_witness_scriptspend(pub, S).bytes
+        except BaseException as e:
+            ctx.violation({'clause': 'builders run', 'extension': how}, f'flag {flhex} fields {which}: {e!r}')
+            return
+        for wname, w in (('key spend', wk), ('script spend', ws)):
+            res = {}
+            for lname, lock in (('native', native), ('non-native', nn)):
+                rec = Recorder()
+                try:
+                    res[lname] = F.run_auth_scripts([w, lock], dict(sf), {CID: rec}, **kw)
+                except BaseException as e:
+                    res[lname] = repr(e)
+                ctx.ran()
+                ctx.trans(2)
+            ctx.state(('extension', how, flag, which, wname))
+            ctx.outcome('ext:%s' % (res['native'],))
+            want = True if wname == 'key spend' else (res['native'])
+            if res['native'] is not want or res['non-native'] is not res['native']:
+                ctx.violation({'clause': 'native and non-native locks agree', 'extension': how, 'witness': wname},
+                              f'flag {flhex} fields {which} {wname}: native {res["native"]!r}, non-native {res["non-native"]!r}')
+    finally:
+        if how == 'registered':
+            F.remove_signature_extension(_hashing_extension)
+
+
 def key_case(ctx, case):
     k, which, part = case
     seed = ctx.seed
@@ -528,6 +589,9 @@ def blocks(tier, seed):
         Block('B2_sigfield_subsets', [tuple(i + 1 for i in range(8) if b >> i & 1) for b in range(256)], subset_case,
               'all 256 subsets of the eight sigfields x flags {00, 55, aa}: builder signature, key-path verdict, every present field changed',
               nshards=64),
+        Block('F_signature_extension_active', [(h, fl, w) for h in ('registered', 'given to the run') for fl in (0x00, 0x01, 0x02, 0x80, 0x7e)
+                                               for w in ((1,), (1, 2), (2, 8), (1, 2, 3, 4, 5, 6, 7, 8))], extension_case,
+              'hashing signature extension registered / given to the run x 5 flags x 4 sigfield sets: builder witnesses against both locks', nshards=20),
         Block('C2_mismatch_x_flag_bytes', list(range(256)), mismatch_flags_case,
               'all 256 sigflags bytes x wrong script / wrong key / both x {nothing, true, false, two items} underneath', nshards=64),
         Block('E3_call_budget_boundary', [(L, p) for L in (1, 2, 3, 5, 16) for p in ('script', 'key')], budget_case,
